@@ -2,7 +2,7 @@ From Coq Require Import List Bool ZArith PrimFloat.
 From PUN Require Import Base.Num Model.Interval Model.Pbox Gen.GenFree Gen.GenParams Corr.CorrCommon Corr.CorrPbox.
 Import ListNotations.
 (* which constructor, its arguments, what the implementation returned *)
-Inductive fctor := FMinMean | FMeanStd | FPosMeanStd | FMinMaxMean.
+Inductive fctor := FMinMean | FMeanStd | FPosMeanStd | FMinMaxMean | FMinMaxMedian.
 Definition fcase := (fctor * list float * pout)%type.
 Definition a0 (l : list float) := nth 0 l 0%float.
 Definition a1 (l : list float) := nth 1 l 0%float.
@@ -14,5 +14,9 @@ Definition feval (c : fctor) (a : list float) : res (pbox FN) :=
   | FMeanStd => let '(l, r) := free_mean_std FN steps (a0 a) (a1 a) in mk_staircase_lists FN steps plo phi l r
   | FPosMeanStd => let '(l, r) := free_pos_mean_std FN steps (a0 a) (a1 a) in mk_staircase_lists FN steps plo phi l r
   | FMinMaxMean => let '(l, r) := free_min_max_mean FN steps (a0 a) (a1 a) (a2 a) in mk_staircase FN steps plo phi l r
+  | FMinMaxMedian => match free_min_max_median FN (p_values FN steps plo phi) (a0 a) (a1 a) (a2 a) with
+                     | Some (l, r) => mk_staircase FN steps plo phi l r
+                     | None => NotImpl     (* minimum == maximum: delegated to min_max, not sent to this comparison *)
+                     end
   end.
 Definition fcheck (c : fcase) : nat := let '(k, a, out) := c in pcmp (feval k a) out.
